@@ -63,6 +63,7 @@ def parse_harness(path, scratch):
         elif k == 'OVERRIDE': h['override'] += v.split()
         elif k == 'STUB': h['stub'] += v.split()
         elif k == 'IR2C': h['ir2c'] += v.split()
+        elif k == 'MODELDEF': h.setdefault('modeldef', []).extend(v.split())
         elif k == 'OBL':
             o = json.loads(v)
             o.setdefault('tier', 'quick'); o.setdefault('unwind', 2); o.setdefault('out', 16)
@@ -249,7 +250,7 @@ def build_native(h, d, sanitize=True):
 
 def build_gen_native(h, d):
     exe = os.path.join(d, 'native_gen')
-    rc, out, t = sh(['clang-14', '-O1', '-g', '-w', '-I' + MODELS, os.path.join(d, 'gen.c'), os.path.join(d, 'gen_main.c'), '-o', exe, '-lm'])
+    rc, out, t = sh(['clang-14', '-O1', '-g', '-w', '-I' + MODELS] + ['-D' + x for x in h.get('modeldef', [])] + [os.path.join(d, 'gen.c'), os.path.join(d, 'gen_main.c'), '-o', exe, '-lm'])
     if rc != 0: raise EngineError('clang (generated C, native) failed:\n' + out[-6000:])
     return exe
 
@@ -330,7 +331,7 @@ def translation_validation(h, d, obls, seed, n_random):
 # ---------------------------------------------------------------- cbmc
 def cbmc_cmd(o, d, backend, witness=False):
     cmd = ['cbmc', '-I', MODELS, os.path.join(d, 'gen.c'), os.path.join(d, 'drv_%s.c' % o['name']), '--function', 'verif_driver',
-           '--unwind', str(o['unwind'])] + CBMC_BASE + o.get('cbmc', [])
+           '--unwind', str(o['unwind'])] + CBMC_BASE + o.get('cbmc', []) + ['-D' + x for x in o.get('_modeldef', [])]
     if 'fs' in o:      # per-obligation field-sensitivity array size (default 0 = arrays as whole symbols)
         i = cmd.index('--max-field-sensitivity-array-size'); cmd[i + 1] = str(o['fs'])
     for us in o.get('unwindset', []): cmd += ['--unwindset', us]
@@ -491,6 +492,7 @@ def check(prop, tier, only=None, keep=False, seed=0):
             fl = translate(h, d, obls)
             native_sources(h, d, obls)
             for o in obls:
+                o['_modeldef'] = h.get('modeldef', [])
                 kc = sorted({f['class'] for f in findings if f.get('obligation') in (o['name'], o.get('family')) and f['status'] == 'known'})
                 o['_known_classes'] = kc
                 open(os.path.join(d, 'drv_%s.c' % o['name']), 'w').write(driver_c(o, kc))
